@@ -20,6 +20,14 @@ def sh(cmd, cwd=None, timeout=1800):
     p = subprocess.run(cmd, shell=True, cwd=cwd, capture_output=True, text=True, timeout=timeout)
     return p.returncode, (p.stdout + p.stderr)
 meta = dict(seed=sid, breaks=props[0], ran=[])
+_old_meta = os.path.join(dst, "meta.json")
+KEEP = {}
+if os.path.exists(_old_meta):
+    try:
+        _o = json.load(open(_old_meta))
+        KEEP = {k: _o[k] for k in ("needs_to_manifest", "first_attempt", "source", "suite_note") if k in _o}
+    except Exception:
+        pass
 sh("git -C /repo worktree remove --force %s" % wt)
 rc, out = sh("git -C /repo worktree add -q %s HEAD" % wt)
 env = "CARGO_TARGET_DIR=%s/target CARGO_NET_OFFLINE=true" % wt
@@ -64,4 +72,5 @@ else:
         sh("git -C /repo checkout -- .")
         print("repo restored:", sh("git -C /repo status --short")[1].strip() or "clean")
 meta["detected_by"] = [r["check"] for r in meta["ran"] if r["rc"] == 1]
+meta.update({k: v for k, v in KEEP.items() if k not in meta})
 json.dump(meta, open(os.path.join(dst, "meta.json"), "w"), indent=1)
